@@ -95,16 +95,44 @@ def extract(tree):
         else:
             raise ExtractError("DIVZERO_%s not recognised: %s" % (nm, t))
     g["divzero"] = dz
+    loop_forms = set()
     for mac, inv in (("DIVMETHOD", False), ("DIVMETHODINVERT", True), ("DIVMETHOD_SIGNED", False), ("DIVMETHODINVERT_SIGNED", True)):
         t = _macro(src, mac)
         n = _norm(t)
         if inv:
             ok = re.search(r"\*box = janet_unwrap_##type\(argv\[1\]\); T value = janet_unwrap_##type\(argv\[0\]\); if \(value == 0\) DIVZERO\(name\);", n)
         else:
-            ok = re.search(r"\*box = janet_unwrap_##type\(argv\[0\]\); for \(int32_t i = 1; i < argc; i\+\+\) \{ T value = janet_unwrap_##type\(argv\[i\]\); if \(value == 0\) DIVZERO\(name\);", n)
+            # the zero test inside the loop: DIVZERO(name) (same action as the two-argument forms) or DIVZERO_NEXT(name)
+            ok = re.search(r"\*box = janet_unwrap_##type\(argv\[0\]\); for \(int32_t i = 1; i < argc; i\+\+\) \{ T value = janet_unwrap_##type\(argv\[i\]\); if \(value == 0\) (DIVZERO|DIVZERO_NEXT)\(name\);", n)
+            if ok:
+                loop_forms.add(ok.group(1))
         if not ok or "*box oper##= value;" not in n:
             raise ExtractError("%s body changed: %s" % (mac, n[:240]))
         g["guard_" + mac] = _has_minneg_guard(t, "value", "*box", "*box oper##= value") if "SIGNED" in mac else False
+
+    # what a zero divisor does inside the loop of DIVMETHOD / DIVMETHOD_SIGNED: "error" | "return" | "continue"
+    if len(loop_forms) != 1:
+        raise ExtractError("the loops of DIVMETHOD and DIVMETHOD_SIGNED use different zero tests: %s" % sorted(loop_forms))
+    lz = {}
+    if loop_forms == {"DIVZERO"}:
+        for nm in ("div", "rem", "mod"):
+            lz[nm] = "error" if dz[nm] == "error" else "return"
+    else:
+        if _norm(_macro(src, "DIVZERO_NEXT")) != "(name) DIVZERO_NEXT_##name":
+            raise ExtractError("DIVZERO_NEXT not recognised: " + _norm(_macro(src, "DIVZERO_NEXT")))
+        for nm in ("div", "rem", "mod"):
+            t = _norm(_macro(src, "DIVZERO_NEXT_" + nm))
+            if t == "DIVZERO_" + nm:
+                lz[nm] = "error" if dz[nm] == "error" else "return"
+            elif t.startswith("janet_panic(\"division by zero\")"):
+                lz[nm] = "error"
+            elif t == "continue":
+                lz[nm] = "continue"
+            elif t.startswith("return janet_wrap_abstract(box)"):
+                lz[nm] = "return"
+            else:
+                raise ExtractError("DIVZERO_NEXT_%s not recognised: %s" % (nm, t))
+    g["loopZero"] = lz
 
     # ---- hand-written floor division / modulo ----------------------------------------------------------
     for fn in ("divf", "divfi", "mod", "modi"):
@@ -328,6 +356,9 @@ def render(tree):
     for fn in ("divf", "divfi", "mod", "modi"):
         o.append("abbrev %sArgs : Nat × Nat := (%d, %d)" % (fn, g[fn + "Args"][0], g[fn + "Args"][1]))
     o.append("")
+    o.append("/-- zero divisor inside the loop of DIVMETHOD / DIVMETHOD_SIGNED (`DIVZERO(name)` or `DIVZERO_NEXT(name)`): error | return | continue -/")
+    for nm in ("div", "rem", "mod"):
+        o.append("abbrev loopZero%s : String := %s" % (nm.capitalize(), _s(g["loopZero"][nm])))
     o.append("/-- DIVZERO_<name>: true = panic \"division by zero\", false = return the dividend -/")
     for nm in ("div", "rem", "mod"):
         o.append("abbrev divzeroErrors%s : Bool := %s" % (nm.capitalize(), "true" if g["divzero"][nm] == "error" else "false"))
